@@ -52,6 +52,10 @@ PROP = dict(
                   "inputs (>= 0 checked by the driver, universally quantified in the theorems)",
                   "theorems about the accrued amount assume pow >= 1.0 and pow(x, 0) = 1.0 (monitors pow_ge_one, pow_zero_exp on every real "
                   "call); the ledger invariants assume nothing about the power value",
+                  "monitor savings_zero_rate_window: the bound is the rational inequality (1+r)^y <= (1+r)^floor(y) * (1 + r*frac(y)) applied to "
+                  "the interval a specification ghost allows (last rate update / last settlement of the locker, read from the accepted trace "
+                  "lines, never from the stamps) plus float slack; it is a test oracle on real amounts, the statement it samples is proved in "
+                  "C18 (savings_only_for_time_at_positive_rate, zero_rate_window_earns_nothing)",
                   "x/bank: no vesting / blocked / send-disabled accounts are created; protobuf and the KV store are exercised, not modelled"],
     assumptions=["surplus and debt flag of an auction-mapping entry are mutually exclusive (enforced by SetAuctionMappingForApp); both assets "
                  "of a collector entry exist; first-generation auction parameters exist for the app",
@@ -70,7 +74,9 @@ PROP = dict(
          "thresholds and lot sizes, net fees steered to surplusThreshold+lot / debtThreshold-lot and their neighbours, the real "
          "x/auction and liquidationsV2 begin-blockers deciding, real MsgPlaceSurplusBid / MsgPlaceDebtBid bids (boundary amounts), ESM "
          "toggles and time jumps past the bid / auction windows so that every first-generation close path and the restart occur; plus 8 "
-         "directed histories, one per close path (surplus|debt x bid|no bid x shutdown|window over); vault products closing fee "
+         "directed histories, one per close path (surplus|debt x bid|no bid x shutdown|window over); plus zero-rate-window histories: "
+         "several lockers, the saving rate switched off and on again through the real wasm binding, idle / touched / newly created "
+         "lockers, reward calculation in the block of the switch-on; vault products closing fee "
          "{0, 0.005, 0.02, 0.3} x stability fee {0, 0.25} x draw-down fee {0, 0.01} and two stable-mint products, with same-block "
          "create+close and repay-all-interest+close bursts; penalty histories: a real vault is liquidated by either generation and bought "
          "out through the real Dutch auctions (statistics cell:<inflow>:<component>=0|>0 enumerate the inflow cells reached); distinct = distinct trace text, "
